@@ -255,17 +255,79 @@ def run(ctx) -> Report:
             rep.ok("C18-bound", cls, f"{desc}: estimate {est} >= true degree {true}")
     if n_checked < 45:
         raise AnalysisError(f"only {n_checked} integrands estimated: family vacuous")
-    # compute_form_data uses the estimator for the attached degree
+    # compute_form_data uses the estimator for the attached degree: attach_estimated_degrees and
+    # estimate_total_polynomial_degree interpreted with recording stand-ins for the form, its integrals and the estimator
+    from ..lift import Interp
+
     afd = prog.get_function("ufl.algorithms.compute_form_data", "attach_estimated_degrees")
-    if "estimate_total_polynomial_degree(integral.integrand())" in norm(afd.node) and 'md["estimated_polynomial_degree"] = degree' in norm(afd.node).replace("'", '"'):
-        rep.ok("C18-attach", afd, "the estimated degree of each integrand is attached as estimated_polynomial_degree")
-    else:
-        rep.violation("C18-attach", afd, "attach_estimated_degrees", "the attached estimated_polynomial_degree is not the estimate of the integral's own integrand")
     etd = prog.get_function("ufl.algorithms.estimate_degrees", "estimate_total_polynomial_degree")
-    if "max(degrees)" in norm(etd.node):
-        rep.ok("C18-attach", etd, "total degree is the maximum over the integrands")
-    else:
-        rep.violation("C18-attach", etd, "estimate_total_polynomial_degree", "the total degree is not the maximum over the integrands")
+    FormK, IntegralK = prog.get_class("ufl.form.Form"), prog.get_class("ufl.integral.Integral")
+
+    def integral_obj(name, degree, md):
+        integrand = Obj("integrand:" + name, degree=degree)
+        integrand.attrs["__class__"] = None
+        o = Obj("integral:" + name, __class__=IntegralK, _name=name)
+        o.attrs.update(integrand=lambda: integrand, metadata=lambda: dict(md), reconstruct=lambda metadata=None, **k: Obj("integral:" + name, __class__=IntegralK, _name=name, integrand=lambda: integrand, metadata=lambda: dict(metadata), _md=dict(metadata)))
+        return o
+
+    def stub_interp(degrees_of):
+        ip = Interp(prog)
+        ip.class_models["SumDegreeEstimator"] = lambda *a, **k: Obj("estimator")
+        ip.overrides["map_expr_dags"] = lambda de, exprs, **k: [degrees_of(e) for e in exprs]
+        ip.class_models["Form"] = lambda integrals: Obj("form", __class__=FormK, integrals=lambda: list(integrals), _integrals=list(integrals))
+        ip.isinstance_hook = lambda x, c: False if isinstance(x, Obj) and x.kind.startswith("integrand:") else NotImplemented
+        return ip
+
+    for degs in ((2, 5, 3), (5, 2), (1,), (0, 0, 4, 1)):
+        ip = stub_interp(lambda e: e.attrs["degree"])
+        itgs = [integral_obj(f"I{k}", d, {"quadrature_rule": "default"} if k == 0 else {}) for k, d in enumerate(degs)]
+        form = Obj("form", __class__=FormK, integrals=lambda itgs=itgs: list(itgs))
+        try:
+            total = ip.call_function(etd, [form], {})
+            if total == max(degs):
+                rep.ok("C18-attach", etd, f"total degree of a form with integrand estimates {degs} is {total}")
+            else:
+                rep.violation("C18-attach", etd, f"estimate_total_polynomial_degree, integrands {degs}", f"the total degree of a form whose integrands are estimated {degs} is {total}, not their maximum {max(degs)}")
+            one = ip.call_function(etd, [itgs[-1]], {})
+            if one != degs[-1]:
+                rep.violation("C18-attach", etd, f"estimate_total_polynomial_degree(integral), {degs}", f"the estimate of a single integral with integrand estimate {degs[-1]} is {one}")
+            out = ip.call_function(afd, [form], {})
+            got = [(i.attrs["_name"], i.attrs["_md"].get("estimated_polynomial_degree"), {k: v for k, v in i.attrs["_md"].items() if k != "estimated_polynomial_degree"}) for i in out.attrs["_integrals"]]
+            want = [(f"I{k}", d, {"quadrature_rule": "default"} if k == 0 else {}) for k, d in enumerate(degs)]
+            if got == want:
+                rep.ok("C18-attach", afd, f"each of {len(degs)} integrals gets the estimate of its own integrand {degs}; other metadata kept")
+            else:
+                rep.violation("C18-attach", afd, f"attach_estimated_degrees, integrands {degs}", f"integrals with integrand estimates {degs} come out as (name, estimated_polynomial_degree, other metadata) = {got}")
+        except LiftRaise as ex:
+            rep.violation("C18-attach", afd, f"attach_estimated_degrees {degs}", f"raises {ex.what}")
+    # the mixed element that derivative() builds for a tuple of coefficients: its degrees bound its sub-elements'
+    mk = prog.get_class("ufl.formoperators._MixedElement")
+    ipm = Interp(prog)
+    ipm.instantiable = {"_MixedElement"}
+    ipm.class_models["IdentityPullback"] = lambda: Obj("pullback")
+    ipm.class_models["MixedPullback"] = lambda el: Obj("pullback")
+    ipm.isinstance_hook = lambda x, c: True if isinstance(x, Obj) and x.kind == "pullback" else NotImplemented
+    ucell = Obj("cell")
+    n_mixed = 0
+    for n in (2, 3):
+        for sup in itertools.product((0, 1, 3), repeat=n):
+            subs = [Obj("element", embedded_superdegree=d, embedded_subdegree=max(d - 1, 0), cell=ucell, pullback=Obj("pullback")) for d in sup]
+            try:
+                me = ipm.instantiate(mk, [subs], {})
+                hi = ipm.getattr(me, "embedded_superdegree", None, prog.module("ufl.formoperators"))
+                lo = ipm.getattr(me, "embedded_subdegree", None, prog.module("ufl.formoperators"))
+            except LiftRaise as ex:
+                rep.violation("C18-mixed", mk, f"_MixedElement{sup}", f"raises {ex.what}")
+                continue
+            n_mixed += 1
+            if hi is None or hi < max(sup):
+                rep.violation("C18-mixed", mk, f"_MixedElement with sub-element degrees {sup}", f"embedded_superdegree of the mixed element over sub-elements of degrees {sup} is {hi}: below a sub-element's degree, so every estimate through this element underestimates")
+            elif lo > min(max(d - 1, 0) for d in sup):
+                rep.violation("C18-mixed", mk, f"_MixedElement with sub-element degrees {sup}", f"embedded_subdegree {lo} exceeds a sub-element's subdegree")
+            else:
+                rep.ok("C18-mixed", mk, f"degrees {sup}: superdegree {hi} >= every sub-element, subdegree {lo} <= every sub-element")
+    if n_mixed < 30:
+        raise AnalysisError(f"only {n_mixed} mixed elements instantiated")
     rep.require_min("C18-bound", 45)
     rep.explanation = (
         f"SumDegreeEstimator lifted on {len(cases)} polynomial integrands; the true degree was computed from the lifted meaning with each form-argument "
